@@ -851,6 +851,51 @@ func streamRb(o opts) {
 			m.nontrivial(fmt.Sprintf("ops%d", nops))
 		}
 	}
+	// fewer stripes than stripe ids (a cache built while GOMAXPROCS is small, readers whose per-P id is larger):
+	// every sample must land in a valid stripe, mark that stripe dirty, and be replayed by the write path's own
+	// drainReadSamples (reached through a synchronous Set) without a panic.
+	for _, procs := range []int{1, 2, 4} {
+		func() {
+			prev := runtime.GOMAXPROCS(procs)
+			c, err := kioshun.New[int, int](kioshun.Config{MaxSize: 64, ShardCount: 1, EvictionPolicy: kioshun.SieveTinyLFU})
+			runtime.GOMAXPROCS(prev)
+			must(err)
+			panicked := false
+			defer func() {
+				if !panicked { // after a panic the shard's locks are still held: Close would block, leak the cache instead
+					c.Close()
+				}
+			}()
+			ctx := fmt.Sprintf("read buffer built with GOMAXPROCS=%d", procs)
+			defer func() {
+				if p := recover(); p != nil {
+					panicked = true
+					m.violate("C11", fmt.Sprintf("%s: panic on the write path after samples from stripe ids 0..31: %v", ctx, p), ctx)
+				}
+			}()
+			kioshun.VerifTakeTrace()
+			want := map[int64]int{}
+			for id := uint64(0); id < 32; id++ {
+				h := uint64(1000 + id)
+				c.VerifSampleRead(0, h, id)
+				want[int64(h)]++
+			}
+			c.Set(1, 1, kioshun.NoExpiration) // syncMutate -> drainShardQueue -> drainReadSamples
+			got := map[int64]int{}
+			for _, e := range kioshun.VerifTakeTrace() {
+				if e.Kind == kioshun.VerifEvSample {
+					got[e.A]++
+				}
+			}
+			for h, n := range want {
+				if got[h] != n {
+					m.violate("C11", fmt.Sprintf("%s: fingerprint %d sampled through stripe id %d was replayed %d times by the write path's drain, want %d (a stripe that holds samples was not marked dirty)", ctx, h, h-1000, got[h], n), ctx)
+					break
+				}
+			}
+			m.count("small_stripe_checks")
+		}()
+	}
 	w.Close()
 	m.Traces, m.Ops = w.traces, w.ops
 	m.write(o.out)
